@@ -575,6 +575,107 @@ func vrEveryAlgorithmListed(t *testing.T) string {
 	return ""
 }
 
+
+// a collection between the blob uploads and the manifest push of the first image of a repository (C05): the uploads are
+// younger than the grace period and must still be there afterwards, and the push must still be possible
+func vrRecentUploadsSurviveEarlyCollection(t *testing.T) string {
+	root := t.TempDir()
+	s := NewDir(vrConf(config.StoreDir, root, false, nil))
+	defer s.Close()
+	repo, err := s.RepoGet(context.Background(), "fresh")
+	if err != nil {
+		return ""
+	}
+	var ds []digest.Digest
+	for _, c := range [][]byte{[]byte(`{"config":1}`), []byte("layer content")} {
+		bc, _, err := repo.BlobCreate()
+		if err != nil {
+			repo.Done()
+			return ""
+		}
+		_, _ = bc.Write(c)
+		if bc.Close() != nil {
+			repo.Done()
+			return ""
+		}
+		ds = append(ds, digest.Canonical.FromBytes(c))
+	}
+	repo.Done()
+	if dr, ok := repo.(*dirRepo); ok {
+		_ = dr.gc()
+	}
+	repo, err = s.RepoGet(context.Background(), "fresh")
+	if err != nil {
+		return fmt.Sprintf("dir store: after a collection between the blob uploads and the manifest push the repository cannot be opened: %v", err)
+	}
+	defer repo.Done()
+	for _, d := range ds {
+		rdr, err := repo.BlobGet(d)
+		if err != nil {
+			return fmt.Sprintf("dir store: blob %s, uploaded seconds ago (grace period one hour), is gone after a collection that ran before the manifest push: %v", d, err)
+		}
+		_ = rdr.Close()
+	}
+	return ""
+}
+
+// a memory store without a root directory never reads the file system (C16): a directory of the working directory that
+// happens to be named like a repository is not a backing store
+func vrMemWithoutRootStaysOffDisk(t *testing.T) string {
+	name := fmt.Sprintf("zzverifreplay%d", time.Now().UnixNano())
+	content := []byte("content that was never pushed")
+	d := digest.Canonical.FromBytes(content)
+	dir := filepath.Join(name, blobsDir, d.Algorithm().String())
+	if err := os.MkdirAll(dir, 0o755); err != nil {
+		return ""
+	}
+	defer os.RemoveAll(name)
+	if err := os.WriteFile(filepath.Join(dir, d.Encoded()), content, 0o644); err != nil {
+		return ""
+	}
+	s := NewMem(vrConf(config.StoreMem, "", false, nil))
+	defer s.Close()
+	repo, err := s.RepoGet(context.Background(), name)
+	if err != nil {
+		return ""
+	}
+	defer repo.Done()
+	if rdr, err := repo.BlobGet(d); err == nil {
+		_ = rdr.Close()
+		return fmt.Sprintf("mem store without a root directory: repository %q serves blob %s from ./%s in the working directory of the process, nobody pushed it", name, d, name)
+	}
+	return ""
+}
+
+// a completed session ceases to exist (C08), also when the content it carried was already stored
+func vrCompletedSessionIsGone(t *testing.T) string {
+	for name, s := range vrStores(t, nil) {
+		repo, err := s.RepoGet(context.Background(), "repo")
+		if err != nil {
+			continue
+		}
+		content := []byte("the same layer, pushed twice")
+		for round := 1; round <= 2; round++ {
+			bc, id, err := repo.BlobCreate()
+			if err != nil {
+				break
+			}
+			_, _ = bc.Write(content)
+			if err := bc.Close(); err != nil {
+				break
+			}
+			if _, err := repo.BlobSession(id); err == nil {
+				repo.Done()
+				_ = s.Close()
+				return fmt.Sprintf("%s store: push number %d of the same content: the upload session %s is still there after Close returned nil", name, round, id)
+			}
+		}
+		repo.Done()
+		_ = s.Close()
+	}
+	return ""
+}
+
 func TestVerifReplay(t *testing.T) {
 	ob := os.Getenv("VERIF_OBLIGATION")
 	type probe struct {
@@ -592,6 +693,9 @@ func TestVerifReplay(t *testing.T) {
 		{".gc#loop", vrGCStarvation},
 		{"Repo.BlobCreate#post:exists-refreshes-age", vrExistsRefreshesAge},
 		{"RepoGet#", vrReservedNames},
+		{"mem.RepoGet#", vrMemWithoutRootStaysOffDisk},
+		{"dirRepo.gc", vrRecentUploadsSurviveEarlyCollection},
+		{"Upload.Close", vrCompletedSessionIsGone},
 		{"memRepo.blob", vrDeletedBlobHidden},
 		{"Upload.Write", vrCancelledSessionIsDead},
 		{"blobList", vrEveryAlgorithmListed},
